@@ -9,7 +9,8 @@ use crate::states::{build, Coll, Spec, RECIPES};
 use crate::util::{catch, payload_str, Json, Rng};
 use hashbrown::TryReserveError;
 
-pub const C12_COLLS: [&str; 12] = [
+pub const C12_COLLS: [&str; 15] = [
+    "set:Z", "table:Z8", "map:ZxZ",
     "map:P8xP8", "map:T24xT24", "map:B1xB1", "map:B3xZ", "map:L200xB1", "map:A64xP8", "set:B1", "set:B6", "set:T24", "table:B3", "table:T24", "table:P8",
 ];
 /// requests above this are recorded and refused by the allocator, never backed by memory
@@ -97,6 +98,17 @@ pub fn scenario<C: Coll>(c: &mut Ctx, idx: u64, rng: &mut Rng, name: &str) {
                 }
                 Err(TryReserveError::AllocError { layout }) => {
                     outcome = 1;
+                    // a table that can hold n elements has at least n buckets: n control bytes and n elements.
+                    // A refused request smaller than that was never going to satisfy the reservation, i.e. the
+                    // size computation lost the request on the way (the error should have been CapacityOverflow).
+                    match len.checked_add(additional) {
+                        None => crate::viol!("{}: AllocError although len + additional overflows usize (must be CapacityOverflow)", what),
+                        Some(n) => crate::check!(
+                            layout.size() as u128 >= n as u128 * (esize as u128 + 1),
+                            "{}: the allocator was asked for {} bytes, too small for {} elements of {} bytes plus their control bytes",
+                            what, layout.size(), n, esize
+                        ),
+                    }
                     match refused.last() {
                         None => crate::viol!("{}: AllocError {:?} although the allocator refused nothing in this call", what, layout),
                         Some(e) => crate::check!(e.size == layout.size() && e.align == layout.align(), "{}: AllocError carries {:?} but the refused request was size {} align {}", what, layout, e.size, e.align),
